@@ -332,6 +332,88 @@ def r_acyc(E):
     return res
 
 
+def _keyed_memo(pm, site, attr):
+    """the write `self.<attr> = (key, value)` of `site` read as a keyed memo: (text of the key, [inputs read under the guard
+    that the key does not name]) when the function has the shape
+        key = <K>; mk, v = self.<attr>; if mk != key: v = <computed>; self.<attr> = (key, v); return v
+    None when it has not."""
+    try:
+        cn, mn = site.func.split(".", 1)
+        _owner, fn = pm.find_method(cn, mn)
+    except Exception:
+        return None
+    if fn is None:
+        return None
+    from ..astutil import single_assignments
+    w = site.node
+    # (the site's node may belong to an inlined copy: find the statement of the same text in the function)
+    cands = [st for st in ast.walk(fn) if isinstance(st, ast.Assign) and norm(st) == norm(w)]
+    if len(cands) != 1:
+        return None
+    w = cands[0]
+    if not (isinstance(w.value, ast.Tuple) and len(w.value.elts) == 2 and len(w.targets) == 1):
+        return None
+    sa = single_assignments(fn)
+    key_e = w.value.elts[0]
+    key_text = norm(key_e)
+    K = sa.get(key_e.id) if isinstance(key_e, ast.Name) else key_e
+    if K is None:
+        return None
+    # the names the stored key is unpacked into
+    mks = set()
+    for st in ast.walk(fn):
+        if isinstance(st, ast.Assign) and len(st.targets) == 1 and isinstance(st.targets[0], ast.Tuple) \
+                and len(st.targets[0].elts) == 2 and norm(st.value) == f"self.{attr}" and isinstance(st.targets[0].elts[0], ast.Name):
+            mks.add(st.targets[0].elts[0].id)
+    mks.add(f"self.{attr}[0]")
+    # the guard: the innermost `if` that holds the write, testing stored key against key
+    guard, arm = None, None
+    for n in ast.walk(fn):
+        if isinstance(n, ast.If):
+            for blk in (n.body, n.orelse):
+                if any(x is w for b in blk for x in ast.walk(b)):
+                    guard, arm = n, blk
+    if guard is None:
+        return None
+    t = guard.test
+    neg = False
+    if isinstance(t, ast.UnaryOp) and isinstance(t.op, ast.Not):
+        t, neg = t.operand, True
+    if not (isinstance(t, ast.Compare) and len(t.ops) == 1 and isinstance(t.ops[0], (ast.Eq, ast.NotEq))):
+        return None
+    sides = {norm(t.left), norm(t.comparators[0])}
+    if not (key_text in sides and (sides - {key_text}) <= mks and len(sides) == 2):
+        return None
+    differs = isinstance(t.ops[0], ast.NotEq) != neg
+    if (arm is guard.body) != differs:
+        return None      # the write sits in the arm where the keys are equal: not a refresh
+
+    def reads(node):
+        out = set()
+        for x in ast.walk(node):
+            if isinstance(x, ast.Attribute):
+                b = x
+                while isinstance(b, ast.Attribute):
+                    b = b.value
+                par = getattr(x, "_parent", None)
+                if isinstance(b, ast.Name) and b.id == "self" and not (isinstance(par, ast.Attribute) and par.value is x):
+                    out.add(norm(x))
+        return out
+    for n in ast.walk(fn):
+        for ch in ast.iter_child_nodes(n):
+            ch._parent = n
+    named = reads(K)
+    under = set()
+    for b in arm:
+        under |= reads(b)
+    under -= {f"self.{attr}"}
+    # a call of a method on self is a read of whatever that method reads: not named by any key
+    calls = {norm(c.func) + "()" for b in arm for c in ast.walk(b) if isinstance(c, ast.Call) and isinstance(c.func, ast.Attribute)
+             and isinstance(c.func.value, ast.Name) and c.func.value.id == "self"}
+    missing = sorted((under - named) | calls)
+    return key_text if not isinstance(key_e, ast.Name) else f"{key_text} = {norm(K)}", missing
+
+
 @rule("R-WRITE")
 def r_write(E):
     pm = E.pm
@@ -349,6 +431,22 @@ def r_write(E):
         for a, sites in sorted(cx.writes.items()):
             if a != x:
                 s = sites[0]
+                km = _keyed_memo(pm, s, a)
+                if km is not None and not km[1]:
+                    # a memo validated by a key that names every input the memoised value is computed from: reading it is
+                    # the same as computing the value again — no state of its own
+                    if len(res.samples) < 6:
+                        res.samples.append({"context": f"{c}.update_{x}", "keyed memo": f"self.{a}", "key": km[0],
+                                            "verdict": "the key covers every input read under it"})
+                    continue
+                if km is not None:
+                    res.findings.append(Finding(
+                        "R-WRITE", f"{c}.update_{x} writes self.{a} :: keyed memo with an incomplete key",
+                        f"{c}.update_{x} serves a value out of the memo self.{a} (in {s.func}) whenever `{km[0]}` is unchanged, "
+                        f"but the memoised value is also computed from {', '.join(km[1])}: after an edit of that input the "
+                        f"memo still answers with the value of the previous input (hidden state between recomputations and "
+                        f"between objects that share the key)", s.path, s.node.lineno, s.func, areas))
+                    continue
                 res.findings.append(Finding(
                     "R-WRITE", f"{c}.update_{x} writes self.{a} :: {norm(s.node)[:120]}",
                     f"{c}.update_{x} also assigns self.{a} (in {s.func}): that value has no twin in a simulation, is "
